@@ -163,7 +163,13 @@ func replayFile(path string) int {
 	fails := false
 	switch doc.Kind {
 	case "check":
-		fails = strings.Contains(out, "VERIF-CHECK-FAILED "+doc.Label)
+		cut := len(out)
+		for _, marker := range []string{"VERIF-EXTRA-NONDET", "VERIF-ASSUME-FAILED", "VERIF-MISMATCH"} {
+			if i := strings.Index(out, marker); i >= 0 && i < cut {
+				cut = i
+			}
+		}
+		fails = strings.Contains(out[:cut], "VERIF-CHECK-FAILED "+doc.Label)
 	case "panic":
 		fails = strings.Contains(out, "panic:")
 	case "hang":
